@@ -129,10 +129,14 @@ def showOBool : Option Bool → String
 def showRows (rows : List (List Rat)) : String :=
   if rows.isEmpty then "-" else "_".intercalate (rows.map showRatList)
 
+/-- last field: the update flag; for `fit` events the generation of the fitted object — the model
+always fits a fresh clone (`init`), so it is always `g0` -/
+def showLast (op : String) (up : Option Bool) : String := if op == "fit" then "g0" else showOBool up
+
 def showEvent : Event → String
-  | .fc tag op y fh up => s!"F:{tag}:{op}:{showSeries y}:{showOFh fh}:{showOBool up}"
-  | .tr tag op z up => s!"T:{tag}:{op}:{showSeries z}:{showOBool up}"
-  | .rg tag op rows ys => s!"G:{tag}:{op}:{showRows rows}:{match ys with | none => "none" | some v => showRatList v}"
+  | .fc tag op y fh up => s!"F:{tag}:{op}:{showSeries y}:{showOFh fh}:{showLast op up}"
+  | .tr tag op z up => s!"T:{tag}:{op}:{showSeries z}:{showLast op up}"
+  | .rg tag op rows ys => s!"G:{tag}:{op}:{showRows rows}:{match ys with | none => "none" | some v => showRatList v}:{showLast op none}"
 
 def showOut : Option Series → String
   | none => "ok"
